@@ -93,6 +93,8 @@ C08_Recorded(C, R) ==
             /\ \A j \in 1..Len(R.t_events[i]) :
                   /\ R.ev[i][j].g_small /\ R.ev[i][j].g_brk /\ R.ev[i][j].ye_dim /\ R.ev[i][j].ye_sol
                   /\ C.x0.r <= R.t_events[i][j].r /\ R.t_events[i][j].r <= C.m.xend_hi
+                  \* bracketed by accepted steps: without t_eval the last reported time is the last accepted step end (or the stop)
+                  /\ (~C.hasT /\ Len(R.t) >= 1 => R.t_events[i][j].r <= Last(R.t).r)
 
 \* all accepted step ends are reported only without t_eval / first_step
 OppD(l, r, dir) == CASE dir = "All" -> (l = -1 /\ r = 1) \/ (l = 1 /\ r = -1)
